@@ -56,7 +56,7 @@ CONSTANTS NSplits, NRec, NOps,
           KeyDigits,
           MaxLen
 
-VARIABLES cursor, order, cuts, stream,                       \* ghost / observable
+VARIABLES cursor, order, cuts, stream, ok,                   \* ghost / observable (ok: the stream clauses held at every Deliver)
           lpend, ostr, eoi, nbar, nticks,                    \* L
           kbatch, karmed, kfires, nkf, pc, ev, klock,        \* key-by batcher + flushers
           nextSeq, drained, reserved, fetch, items, kout, dblk, \* reorder buffer
@@ -64,7 +64,7 @@ VARIABLES cursor, order, cuts, stream,                       \* ghost / observab
           obatch, oarmed, ofire, nof, ssend,                 \* per-operator batcher + sender
           hist
 
-abs   == <<cursor, order, cuts, stream>>
+abs   == <<cursor, order, cuts, stream, ok>>
 lvars == <<lpend, ostr, eoi, nbar, nticks>>
 kvars == <<kbatch, karmed, kfires, nkf, pc, ev, klock>>
 bvars == <<nextSeq, drained, reserved, fetch, items, kout, dblk>>
@@ -91,9 +91,55 @@ NoBatch     == [on |-> FALSE, batch |-> <<>>]
 NoWait      == [on |-> FALSE, op |-> 0, batch |-> <<>>]
 NoBlk       == [on |-> FALSE, q |-> <<>>]
 
+\* ---- properties (over the ghost state only; PipelineTrace reuses them) ----
+IsRec(x) == x.t = "r"
+RecsOf(s) == SelectSeq(s, IsRec)
+Prefix(s, i) == SubSeq(s, 1, i)
+SetOf(s) == {s[i] : i \in DOMAIN s}
+ReadSet(k) == {order[i] : i \in 1..k}
+
+\* C04: each record at most once, only at Owner(KG(key))
+OnceAtOwner ==
+  \A o \in Ops :
+    /\ \A i \in DOMAIN stream[o] : IsRec(stream[o][i]) =>
+          /\ Owner(stream[o][i]) = o
+          /\ stream[o][i] \in SetOf(order)
+    /\ \A i, j \in DOMAIN stream[o] : (i < j /\ IsRec(stream[o][i])) => stream[o][i] # stream[o][j]
+
+\* C04: same split and same key => stream order = split order
+SplitKeyOrder ==
+  \A o \in Ops : \A i, j \in DOMAIN stream[o] :
+    (i < j /\ IsRec(stream[o][i]) /\ IsRec(stream[o][j]) /\ stream[o][i].a = stream[o][j].a
+       /\ Key(stream[o][i]) = Key(stream[o][j])) => stream[o][i].b < stream[o][j].b
+
+CutOf(n) == CHOOSE c \in SetOf(cuts) : c.n = n
+Below(c) == {r \in SetOf(order) : r.b <= c.pos[r.a]}
+
+\* C04: a barrier / watermark never precedes a record read before it;
+\* C16-cut: the records ahead of barrier n are EXACTLY those below the reported position
+MarkerOK(o, i) ==
+  LET m == stream[o][i]
+      before == SetOf(RecsOf(Prefix(stream[o], i - 1)))
+  IN CASE m.t = "b" -> /\ \E c \in SetOf(cuts) : c.n = m.a
+                       /\ before = {r \in Below(CutOf(m.a)) : Owner(r) = o}
+       [] m.t = "w" -> /\ m.a <= Len(order)
+                       /\ {r \in ReadSet(m.a) : Owner(r) = o} \subseteq before
+       [] OTHER -> TRUE
+
+MarkersOK == \A o \in Ops : \A i \in DOMAIN stream[o] : MarkerOK(o, i)
+
+\* each barrier at most once per stream, in id order; watermarks non-decreasing (C11, free)
+MarkersOrdered ==
+  \A o \in Ops : \A i, j \in DOMAIN stream[o] :
+    (i < j /\ stream[o][i].t = stream[o][j].t /\ stream[o][i].t # "r") =>
+        IF stream[o][i].t = "b" THEN stream[o][i].a < stream[o][j].a ELSE stream[o][i].a <= stream[o][j].a
+
+StreamsOK == OnceAtOwner /\ SplitKeyOrder /\ MarkersOK /\ MarkersOrdered
+
+-----------------------------------------------------------------------------
 Init ==
   /\ cursor = [s \in Splits |-> 0] /\ order = <<>> /\ cuts = <<>>
-  /\ stream = [o \in Ops |-> <<>>]
+  /\ stream = [o \in Ops |-> <<>>] /\ ok = TRUE
   /\ lpend = <<>> /\ ostr = <<>> /\ eoi = FALSE /\ nbar = 0 /\ nticks = 0
   /\ kbatch = <<>> /\ karmed = FALSE /\ kfires = 0 /\ nkf = 0
   /\ pc = [g \in G |-> "idle"] /\ ev = [g \in G |-> <<>>] /\ klock = "free"
@@ -137,7 +183,7 @@ ReadSplit(sp, n) ==
         /\ order' = order \o recs
         /\ LRun(kbatch, karmed, recs, pc)
         /\ Log([a |-> "ReadSplit", sp |-> sp, n |-> n, from |-> cursor[sp], full |-> pc'["c"] = "flush"])
-  /\ UNCHANGED <<cuts, stream, eoi, nbar, nticks, kfires, nkf, ev, klock, bvars, rvars, ovars>>
+  /\ UNCHANGED <<cuts, stream, ok, eoi, nbar, nticks, kfires, nkf, ev, klock, bvars, rvars, ovars>>
 
 AllRead == \A s \in Splits : cursor[s] = NRec
 
@@ -162,7 +208,7 @@ BarrierCut ==
   /\ cuts' = Append(cuts, [n |-> nbar + 1, pos |-> cursor, nread |-> Len(order)])
   /\ ostr' = Append(ostr, [t |-> "b", a |-> nbar + 1, b |-> 0])
   /\ Log([a |-> "BarrierCut", n |-> nbar + 1, pos |-> cursor])
-  /\ UNCHANGED <<cursor, order, stream, lpend, eoi, nticks, kvars, bvars, rvars, ovars>>
+  /\ UNCHANGED <<cursor, order, stream, ok, lpend, eoi, nticks, kvars, bvars, rvars, ovars>>
 
 KTimerFire ==
   /\ karmed /\ nkf < MaxKFires
@@ -317,6 +363,7 @@ Deliver(op) ==
   /\ ssend' = [ssend EXCEPT ![op] = NoBatch]
   /\ Log([a |-> "Deliver", op |-> op, batch |-> ssend[op].batch])
   /\ UNCHANGED <<cursor, order, cuts, lvars, kvars, bvars, rvars, obatch, oarmed, ofire, nof>>
+  /\ ok' = (ok /\ StreamsOK')
 
 -----------------------------------------------------------------------------
 IntEnabled == (\E o \in Ops : SRecvEn(o) \/ STimeoutEn(o)) \/ DrainResumeEn \/ RStepEn
@@ -347,48 +394,8 @@ Next == /\ Len(hist) < MaxLen /\ ~Done
 Spec == Init /\ [][Next]_vars
 
 -----------------------------------------------------------------------------
-\* ---- properties (over the ghost state only; PipelineTrace reuses them) ----
-IsRec(x) == x.t = "r"
-RecsOf(s) == SelectSeq(s, IsRec)
-Prefix(s, i) == SubSeq(s, 1, i)
-SetOf(s) == {s[i] : i \in DOMAIN s}
-ReadSet(k) == {order[i] : i \in 1..k}
-
-\* C04: each record at most once, only at Owner(KG(key))
-OnceAtOwner ==
-  \A o \in Ops :
-    /\ \A i \in DOMAIN stream[o] : IsRec(stream[o][i]) =>
-          /\ Owner(stream[o][i]) = o
-          /\ stream[o][i] \in SetOf(order)
-    /\ \A i, j \in DOMAIN stream[o] : (i < j /\ IsRec(stream[o][i])) => stream[o][i] # stream[o][j]
-
-\* C04: same split and same key => stream order = split order
-SplitKeyOrder ==
-  \A o \in Ops : \A i, j \in DOMAIN stream[o] :
-    (i < j /\ IsRec(stream[o][i]) /\ IsRec(stream[o][j]) /\ stream[o][i].a = stream[o][j].a
-       /\ Key(stream[o][i]) = Key(stream[o][j])) => stream[o][i].b < stream[o][j].b
-
-CutOf(n) == CHOOSE c \in SetOf(cuts) : c.n = n
-Below(c) == {r \in SetOf(order) : r.b <= c.pos[r.a]}
-
-\* C04: a barrier / watermark never precedes a record read before it;
-\* C16-cut: the records ahead of barrier n are EXACTLY those below the reported position
-MarkerOK(o, i) ==
-  LET m == stream[o][i]
-      before == SetOf(RecsOf(Prefix(stream[o], i - 1)))
-  IN CASE m.t = "b" -> /\ \E c \in SetOf(cuts) : c.n = m.a
-                       /\ before = {r \in Below(CutOf(m.a)) : Owner(r) = o}
-       [] m.t = "w" -> /\ m.a <= Len(order)
-                       /\ {r \in ReadSet(m.a) : Owner(r) = o} \subseteq before
-       [] OTHER -> TRUE
-
-MarkersOK == \A o \in Ops : \A i \in DOMAIN stream[o] : MarkerOK(o, i)
-
-\* each barrier at most once per stream, in id order; watermarks non-decreasing (C11, free)
-MarkersOrdered ==
-  \A o \in Ops : \A i, j \in DOMAIN stream[o] :
-    (i < j /\ stream[o][i].t = stream[o][j].t /\ stream[o][i].t # "r") =>
-        IF stream[o][i].t = "b" THEN stream[o][i].a < stream[o][j].a ELSE stream[o][i].a <= stream[o][j].a
+\* C04 / C16-cut clauses held after every Deliver (streams change nowhere else)
+StreamsAlwaysOK == ok
 
 \* the reported position is the read position (model sanity)
 CutConsistent == \A c \in SetOf(cuts) : Below(c) = ReadSet(c.nread)
